@@ -3,6 +3,7 @@ package main
 import (
 	"fmt"
 	"reflect"
+	"strings"
 	"sync"
 	"time"
 	"unsafe"
@@ -20,12 +21,103 @@ import (
 //           11 PushWait(v,0) 12 PopWait(0) 13 PushWait(v,1ns) 14 PopWait(1ns)
 //   kind 2  like kind 1, but inj honest pairs Push(i);Pop() are really performed first (every result checked -> 1/0)
 
+// logical field name -> actual field name, per struct type, found once by type and behaviour on scratch rings (the
+// names in the source are hints only; see harness/fields.go)
+var c10Lay struct {
+	once sync.Once
+	m    map[string]map[string]string // type name prefix ("Ring", "SyncRing", "item") -> logical -> actual
+}
+
+func c10ProbeNames() {
+	m := map[string]map[string]string{"Ring": {}, "SyncRing": {}, "item": {}}
+	func() {
+		defer func() { recover() }()
+		r := ringz.New[int](4)
+		t, p := reflect.TypeOf(r), unsafe.Pointer(&r)
+		before := IntFieldValues(t, p)
+		r.Push(5)
+		r.Push(6)
+		now := IntFieldValues(t, p)
+		if f, ok := FieldWithValue(t, now, before, 0, "head"); ok {
+			m["Ring"]["head"] = f.Name
+		}
+		if f, ok := FieldWithValue(t, now, before, 1, "tail"); ok {
+			m["Ring"]["tail"] = f.Name
+		}
+		if f, ok := FieldWithValue(t, now, nil, 4, "cap"); ok {
+			m["Ring"]["cap"] = f.Name
+		}
+		if f, ok := PickField(t, []string{"values", "buf", "items"}, KindIs(reflect.Slice)); ok {
+			m["Ring"]["values"] = f.Name
+		}
+	}()
+	func() {
+		defer func() { recover() }()
+		r := ringz.NewSync[int](4)
+		t, p := reflect.TypeOf(r), unsafe.Pointer(&r)
+		before := IntFieldValues(t, p)
+		r.Push(5)
+		r.Push(6)
+		r.Pop()
+		now := IntFieldValues(t, p)
+		if f, ok := FieldWithValue(t, now, before, 1, "head"); ok {
+			m["SyncRing"]["head"] = f.Name
+		}
+		if f, ok := FieldWithValue(t, now, before, 2, "tail"); ok {
+			m["SyncRing"]["tail"] = f.Name
+		}
+		if f, ok := FieldWithValue(t, now, nil, 4, "cap"); ok {
+			m["SyncRing"]["cap"] = f.Name
+		}
+		if f, ok := FieldWithValue(t, now, nil, 3, "mask"); ok {
+			m["SyncRing"]["mask"] = f.Name
+		}
+		if f, ok := PickField(t, []string{"values", "slots", "items", "buf"}, KindIs(reflect.Slice)); ok {
+			m["SyncRing"]["values"] = f.Name
+			it := f.Type.Elem()
+			if g, ok := PickField(it, []string{"pos", "seq"}, KindIs(reflect.Uint32)); ok {
+				m["item"]["pos"] = g.Name
+			}
+			if g, ok := PickField(it, []string{"value", "val"}, KindIs(reflect.Int)); ok {
+				m["item"]["value"] = g.Name
+			}
+			m[it.Name()] = m["item"]
+		}
+	}()
+	c10Lay.m = m
+}
+
 func c10Field(v reflect.Value, name string) reflect.Value {
-	f := v.FieldByName(name)
+	c10Lay.once.Do(c10ProbeNames)
+	tn := v.Type().Name()
+	if i := strings.IndexByte(tn, '['); i >= 0 {
+		tn = tn[:i]
+	}
+	actual := name
+	if mm, ok := c10Lay.m[tn]; ok {
+		if a, ok := mm[name]; ok {
+			actual = a
+		} else {
+			actual = ""
+		}
+	}
+	f := reflect.Value{}
+	if actual != "" {
+		f = v.FieldByName(actual)
+	}
 	if !f.IsValid() {
-		panic("field " + name + " not found")
+		panic("field " + name + " of " + tn + " not found")
 	}
 	return f
+}
+
+// the index mask of a SyncRing: the field if there is one, cap-1 otherwise
+func c10Mask(v reflect.Value) int64 {
+	c10Lay.once.Do(c10ProbeNames)
+	if _, ok := c10Lay.m["SyncRing"]["mask"]; ok {
+		return int64(c10Field(v, "mask").Uint())
+	}
+	return int64(c10Field(v, "cap").Uint()) - 1
 }
 func c10Set(f reflect.Value, x uint64) {
 	w := reflect.NewAt(f.Type(), unsafe.Pointer(f.UnsafeAddr())).Elem()
@@ -63,7 +155,7 @@ func c10DumpRing(r *ringz.Ring[int]) []int64 {
 }
 func c10DumpSync(r *ringz.SyncRing[int]) []int64 {
 	v := reflect.ValueOf(r).Elem()
-	l := []int64{int64(c10Field(v, "head").Uint()), int64(c10Field(v, "tail").Uint()), int64(c10Field(v, "mask").Uint())}
+	l := []int64{int64(c10Field(v, "head").Uint()), int64(c10Field(v, "tail").Uint()), c10Mask(v)}
 	vals := c10Field(v, "values")
 	for i := 0; i < vals.Len(); i++ {
 		it := vals.Index(i)
